@@ -2,6 +2,7 @@ package core
 
 import (
 	"fmt"
+	"os"
 	"go/constant"
 	"go/token"
 	"go/types"
@@ -1092,6 +1093,21 @@ func derives(v ssa.Value, src VPred, all bool, seen map[ssa.Value]bool, depth in
 		}
 	}
 	switch x := v.(type) {
+	case *ssa.Parameter:
+		// a parameter of a helper / phase with a single call site, a plain static call: the argument
+		if LiftCallers != nil && x.Parent().Parent() == nil && (x.Parent().Object() == nil || !x.Parent().Object().Exported()) {
+			sites := LiftCallers(x.Parent())
+			if len(sites) == 1 {
+				if call, ok := sites[0].Site.(*ssa.Call); ok && call.Call.StaticCallee() == x.Parent() {
+					for i, q := range x.Parent().Params {
+						if q == x && i < len(call.Call.Args) {
+							return derives(call.Call.Args[i], src, all, seen, depth+1)
+						}
+					}
+				}
+			}
+		}
+		return false
 	case *ssa.ChangeType:
 		return derives(x.X, src, all, seen, depth+1)
 	case *ssa.Convert:
@@ -1710,6 +1726,13 @@ func CalleeImplies(call *ssa.Call, idx int, kind string, cls int, depth int, gua
 		}
 	}
 	ok, cnt := calleeImplies(call, idx, kind, cls, depth, guards, startsOf)
+	if relDebug {
+		names := ""
+		for _, g := range guards {
+			names += g.Name + ","
+		}
+		fmt.Fprintf(os.Stderr, "SUM %s -> %s #%d %s cls=%d guards=%s ok=%v cnt=%v\n", call.Parent().Name(), call.Call.StaticCallee().Name(), idx, kind, cls, names, ok, cnt)
+	}
 	if memo {
 		implyMemo[key] = implyVal{ok, append([]int{}, cnt...)}
 	}
